@@ -835,10 +835,11 @@ type evInfo struct {
 	msg string
 }
 
-// introRequestSeen: the introduce service crashes the process (panic "recipient type is wrong" in the listener
-// goroutine) when a second inbound request arrives on a thread whose first request was continued with recipients
-// (the recipients come back from the metadata store as maps).  That crash is outside this property (reported to
-// the lead as a C03 observation); histories avoid it: at most one inbound request per introduce thread.
+// introRequestSeen: histories keep to at most one inbound request per introduce thread.  A second inbound request on a
+// thread whose first request was continued with recipients used to crash the process (panic "recipient type is wrong"
+// in the listener goroutine; fixed in /repo ea9b4b7 by builder-C03).  The restriction stays because with repeated
+// requests the recipients reloaded from the metadata store decide whether Continue without options is an error, and
+// the machine does not model that store (tried: 1 disagreeing case in a quick run, model-side only).
 func introRequestSeen(hist []Op, t int) bool {
 	for _, o := range hist {
 		if o.Kind == "msg" && !o.Out && o.Msg == "request" && o.T == t {
